@@ -3,6 +3,9 @@ package main
 import (
 	"fmt"
 	"strings"
+	"time"
+
+	"github.com/fluffle/goirc/client"
 
 	"verif/harness/drv"
 	"verif/harness/gen"
@@ -242,6 +245,89 @@ func c01(c *Ctx) {
 	}
 	c.flagPanics(cases)
 	c.RunCases(cases)
+
+	// over a connection: a foreground handler registered for the verb receives an equal line,
+	// whatever the chunking of the byte stream
+	type sent struct{ bytes, expect, enc string }
+	var wfs []sent
+	for _, r := range rs {
+		if r.wf && !strings.ContainsAny(r.bytes, "\r\n\x00") {
+			wfs = append(wfs, sent{r.bytes, r.expect, r.g.enc})
+		}
+	}
+	per := c.Pick(250, 1500)
+	for si, maxRead := range []int{0, 1, 7, 64, 5000} {
+		lo := si * per
+		if lo >= len(wfs) {
+			break
+		}
+		hi := lo + per
+		if hi > len(wfs) {
+			hi = len(wfs)
+		}
+		batch := wfs[lo:hi]
+		rec := &recorder{}
+		sess, err := newSession(nil, func(conn *client.Conn) {
+			cmds := map[string]bool{}
+			for _, m := range batch {
+				cmds[cmdOfEnc(m.expect)] = true
+			}
+			for h := range cmds {
+				name, _ := drv.UnH(h)
+				conn.HandleFunc(name, func(_ *client.Conn, l *client.Line) { rec.add(encLine(l)) })
+			}
+		})
+		if err != nil {
+			c.Res.Notes = append(c.Res.Notes, "C01 e2e session: "+err.Error())
+			c.Res.Inconclusive++
+			continue
+		}
+		sess.srv.SetMaxRead(maxRead)
+		if !sess.sync(10 * time.Second) {
+			c.Res.Inconclusive++
+			sess.close()
+			continue
+		}
+		var sb strings.Builder
+		for _, m := range batch {
+			sb.WriteString(m.bytes)
+			sb.WriteString("\r\n")
+		}
+		sess.srv.Send(sb.String())
+		ok := sess.sync(30 * time.Second)
+		got := rec.list()
+		sess.close()
+		c.Res.Traces++
+		c.Dist(fmt.Sprintf("e2e/maxread=%d", maxRead))
+		if !ok {
+			c.SpecFail("spec", fmt.Sprintf("connection stopped answering while receiving %d well-formed messages (maxRead=%d)", len(batch), maxRead), "", "no PONG for the sync marker after the batch", nil)
+			continue
+		}
+		// PING-verb messages in the batch are also seen by the handler for "PING" via our sync markers; filter those
+		var filtered []string
+		for _, g := range got {
+			if strings.Contains(g, "raw="+drv.H("PING :sync-")[:20]) {
+				continue
+			}
+			filtered = append(filtered, g)
+		}
+		n := len(batch)
+		if len(filtered) != n {
+			c.SpecFail("spec", fmt.Sprintf("over a connection (maxRead=%d): %d well-formed messages sent, handlers received %d lines", maxRead, n, len(filtered)), "", "", nil)
+			if len(filtered) < n {
+				n = len(filtered)
+			}
+		}
+		for i := 0; i < n; i++ {
+			c.Res.Evaluations++
+			if filtered[i] != batch[i].expect {
+				c.SpecFail("spec", fmt.Sprintf("over a connection (maxRead=%d): handler received a different line for %s", maxRead, batch[i].enc), "",
+					"handler saw: "+filtered[i]+" ; Spec expects: "+batch[i].expect,
+					map[string]interface{}{"op": "deliver", "line_hex": drv.H(batch[i].bytes), "maxread": maxRead, "handler_saw": filtered[i], "expected": batch[i].expect})
+				break
+			}
+		}
+	}
 }
 
 func dedup(a []string) []string {
